@@ -48,7 +48,12 @@ class _DT(Ty):
         return _dt_cache[k]
     def sort(self): return self.dt()
     def mk(self, *a): return self.dt().mk(*a)
-    def get(self, z, f): return getattr(self.dt(), f)(z)
+    def get(self, z, f):
+        dt = self.dt()
+        if z3.is_app(z) and z.num_args() > 0 and z.decl().eq(dt.constructor(0)):        # accessor applied to the constructor: read the field directly (keeps terms and triggers small)
+            for i in range(dt.constructor(0).arity()):
+                if dt.accessor(0, i).name() == f: return z.arg(i)
+        return getattr(dt, f)(z)
     def __repr__(self): return self.key()
 
 class ListT(_DT):
